@@ -44,6 +44,20 @@ STYLES = {
        "default: an unset, empty or zero field now treated like a meaningful value or the other way round. Do NOT add "
        "in-memory caches or memoisation, do not touch genesis import/export code and do not touch app/ante (earlier "
        "engineers did). The effect should ideally appear only some operations or blocks after the faulty step."),
+ '8': ("Prefer one of these styles, whichever fits, and prefer functions and modules listed above that the earlier "
+       "engineers did NOT touch: (a) Begin/EndBlocker code paths (x/gov, x/staking, x/slashing, x/distributor, "
+       "x/multistaking, x/spending, x/ubi, x/collectives, x/layer2, x/basket, x/custody, x/feeprocessing): a queue entry "
+       "processed twice or never, an item handled one block early or late, an iteration that stops at the first "
+       "failing item, a deadline compared against the wrong block's time; (b) the `Apply` handler of a proposal content "
+       "type whose effect differs from the equivalent direct message, or that leaves part of its work when it returns an "
+       "error; (c) transactions with SEVERAL messages (two messages of one signer that interact, a later message relying "
+       "on the effect of an earlier one, the same object named twice); (d) councilors, polls, proposal durations, data "
+       "registry, token rates, execution fees, spending-pool owners / weights, collective spending pools and other "
+       "secondary records that the property depends on only indirectly; (e) numeric edge cases in sdk.Dec / sdk.Int "
+       "arithmetic (division rounding, truncation before multiplication, negative or zero operands, very large values). "
+       "Do NOT touch x/recovery, x/ethereum, genesis import/export code or app/ante, and add no in-memory caches (earlier "
+       "engineers did all of that). The effect should ideally appear only some operations or blocks after the faulty "
+       "step."),
  '5': ("Prefer one of these styles, whichever fits: (a) arithmetic: a changed rounding direction, order of "
        "multiplication and division, integer width or sign conversion that only matters for particular magnitudes; "
        "(b) iteration: an iterator bound, prefix or pagination change that only matters when a second object with a "
